@@ -173,6 +173,29 @@ impl Ctx {
         c.quiet = true;
         c
     }
+    /// merge the counts of another context (e.g. of a worker thread) into this one
+    pub fn absorb(&mut self, o: Ctx) {
+        self.evals += o.evals;
+        self.violations += o.violations;
+        for h in o.distinct {
+            self.distinct.insert(h);
+        }
+        for (k, v) in o.counters {
+            *self.counters.entry(k).or_insert(0) += v;
+        }
+        for (k, v) in o.per_sig {
+            *self.per_sig.entry(k).or_insert(0) += v;
+        }
+        for s in o.samples {
+            if self.samples.len() < 6 {
+                self.samples.push(s);
+            }
+        }
+    }
+    /// a context for a worker thread: prints violations itself, counts are absorbed later
+    pub fn child(&self) -> Ctx {
+        Ctx::new(&self.property, &self.monitor, self.tier, self.seed, self.shard, self.nshards)
+    }
     pub fn has_sig(&self, sig: &str) -> bool {
         self.per_sig.contains_key(sig)
     }
